@@ -1533,15 +1533,7 @@ func SelectExpr(query *Query, current Map, expr *sqlparser.SelectExprs, opts ...
 						// async call, like any other column
 						if slot, ok := value.(*any); ok {
 							query.postProcessors = append(query.postProcessors, func() error {
-								value := *slot
-								for {
-									x, ok := value.(*any)
-									if !ok {
-										break
-									}
-									value = *x
-								}
-								data[key] = value
+								data[key] = settled(slot)
 								return nil
 							})
 						}
@@ -1565,16 +1557,7 @@ func SelectExpr(query *Query, current Map, expr *sqlparser.SelectExprs, opts ...
 							return err
 						}
 
-						value := *valueRaw
-						for {
-							x, ok := value.(*any)
-							if !ok {
-								break
-							}
-							value = *x
-						}
-
-						data[name] = value
+						data[name] = settled(valueRaw)
 						return nil
 					})
 				}
@@ -2194,6 +2177,26 @@ func (query *Query) report(err error) {
 		_ = recover()
 	}()
 	query.options.errors(err)
+}
+
+// settled follows a chain of pending results to its value. A chain that leads
+// back into itself (a pending result stored in a register and awaited through
+// that register) has no value: it settles as NULL instead of being followed
+// for ever
+func settled(slot *any) any {
+	seen := map[*any]bool{slot: true}
+	value := *slot
+	for {
+		next, ok := value.(*any)
+		if !ok {
+			return value
+		}
+		if seen[next] {
+			return nil
+		}
+		seen[next] = true
+		value = *next
+	}
 }
 
 func (query *Query) exec() (result any, err error) {
